@@ -69,6 +69,20 @@ CHECKS = {
              "text API of the same tree (agreement, not absolute correctness).",
         technique="TLA+ model checking (TLC) of a complete finite product + execution of every point + trace validation (EntryTrace.tla)",
         design="§6 C15"),
+    "C16": dict(
+        level="model_checking",
+        text="TLC explores spec/Config.tla completely: the merge machine (Parse records explicit flags, Merge applies config values unless "
+             "explicit or locked by --auto) against the independently written Effective for every ordered pair of the 12 settings x flag "
+             "state (absent / given with default value / given other) x config state x --auto (5 328 points), and the upward file search "
+             "against nearest-directory + .flowmark.toml > flowmark.toml > pyproject-with-table for all 4 096 populations of a 3-directory "
+             "chain; four mutants of the model are rejected. Points are materialised as directory chains with config files in rotating "
+             "styles (flat/sectioned, kebab/snake), the real CLI is run end to end (formatted probe bytes and --list-files on a probe "
+             "tree), and spec/ConfigTrace.tla decides whether the specified source of each setting is consistent with the observed "
+             "behaviour. Every key of the config dataclass must have an observable effect.",
+        note="Trusted: reference runs of reformat_text / FileResolver on the same tree give the concrete behaviour of each candidate value; "
+             "in-process cli.main. quick executes a seeded third/quarter of the points, thorough all.",
+        technique="TLA+ model checking (TLC) of complete finite products + materialised end-to-end runs + trace validation (ConfigTrace.tla)",
+        design="§6 C16"),
 }
 
 NOT_YET = "check not built yet in this phase (planned, see DESIGN.md §6)"
